@@ -29,13 +29,13 @@ class Table:
         return "Table(%s)" % self.entry.split("::")[-1]
 
 
-LOSSY_ADAPTORS = ("skip", "take", "filter", "step_by", "skip_while", "take_while", "filter_map", "nth", "last", "chain", "zip", "flat_map", "dedup", "truncate", "retain", "pop", "remove", "drain", "split_off", "clear")
+LOSSY_ADAPTORS = ("skip", "take", "step_by", "skip_while", "take_while", "filter_map", "nth", "last", "chain", "zip", "flat_map", "dedup", "truncate", "retain", "pop", "remove", "drain", "split_off", "clear")
 
 
 def chain_of(prov):
     """flatten a provenance term: (list of adaptor names from the outside in, root)"""
     ops = []
-    while isinstance(prov, tuple) and len(prov) >= 2 and isinstance(prov[0], str) and prov[0] in ("map", "collect", "iter", "rev") or \
+    while isinstance(prov, tuple) and len(prov) >= 2 and isinstance(prov[0], str) and prov[0] in ("map", "collect", "iter", "rev", "filter") or \
             (isinstance(prov, tuple) and len(prov) >= 2 and isinstance(prov[0], str) and prov[0].startswith("lossy:")):
         ops.append(prov[0])
         prov = prov[1]
@@ -76,6 +76,14 @@ def check_table(res, prov, entry, exp_n, exp_off, care, key, what, differs, witn
     if d2 != 0:
         res.finding("%s|table-offset" % key, "%s: the table is not parsed at the file offset the header declares" % what, witness(d2))
     return d == 0 and d2 == 0
+
+
+def filtered_out(outs):
+    """elements dropped by an iterator filter: (path condition, element value, header of the loop that draws from the filter)"""
+    for o in outs:
+        if o.kind == "panic" and isinstance(o.info, dict) and o.info.get("kind") == "filtered-out":
+            heads = [e for e in o.info.get("eff", ()) if e[0] == "loop-head"]
+            yield o.state.pc, o.info["elem"], (heads[-1][1] if heads else None)
 
 
 def slice_desc(v):
@@ -354,16 +362,67 @@ class Loader:
         kh = self.f.find("parse_elf_header32")
         if len(kh) == 1:
             ip.primitives[kh[0]] = m_parse_header
+        def m_filter(ip_, st, fr, t, args):
+            it = val(st, args[0])
+            src = it.data[0] if isinstance(it, Opaque) and it.tag == "iter" else None
+            try:
+                cty = types[ip_.operand_ty(t["args"][1])]
+            except Exception:
+                cty = {}
+            if src is None or cty.get("k") != "closure" or cty.get("path") not in ip_.f.bodies:
+                return None
+            envroot = ("filterenv", st.count("filterenv"))
+            st.mem[envroot] = args[1]
+            return Opaque("iter", (("filter", src, cty["path"], envroot), st.count("iter")))
+
+        def next_filtered(ip_, st, fr, t, it):
+            """next() of iter.filter(pred): draw an element, evaluate the predicate body on it; an element for which it is
+            false is reported as a 'filtered-out' outcome (the rules decide whether the property needed that element)"""
+            _, src, ckey, envroot = it.data[0]
+            rt = types[t["dest"]["ty"]]
+            et = rt["args"][0]
+            n = st.count("next")
+            alts = symgen.alternatives(ip_, st, et, "%s.item%d" % (str(src)[:20], n))
+            if len(alts) != 1:
+                return None
+            v, hook = alts[0]
+            if hook:
+                hook(st)
+            elroot = ("filt-el", n)
+            st.mem[elroot] = v
+            ev = v
+            if isinstance(ev, Ref):
+                ev = ip_.read_loc(st, ev.root, ev.path)
+            name = it.data[0]
+
+            def transform(st2, ret, v=v, ev=ev, name=name, n=n, src=src):
+                if not isinstance(ret, Int):
+                    st2.tag("unknown-callee")
+                    return [(None, Enum(models.NONE, []))]
+                b = ret.bits[0]
+                return [(b, Enum(models.SOME, [v]), lambda s_: s_.add_eff(("iter-next", name, n, ev))),
+                        ("panic", bv.M.NOT(b), {"kind": "filtered-out", "elem": ev, "name": name, "src": src, "eff": st2.eff}),
+                        (None, Enum(models.NONE, []), lambda s_: s_.add_eff(("iter-done", name)))]
+            body = ip_.f.bodies[ckey]
+            env = Ref(envroot, ()) if types[body["locals"][1]["ty"]]["k"] == "ref" else st.mem[envroot]
+            return ("tailcall", ckey, [env, Ref(elroot, ())], transform)
+
         def m_rev(ip_, st, fr, t, args):
             it = val(st, args[0])
             return Opaque("iter", (("rev", it.data[0] if isinstance(it, Opaque) and it.tag == "iter" else None), st.count("iter")))
 
         def m_next_any(ip_, st, fr, t, args):
             it = val(st, args[0])
+            if isinstance(it, Opaque) and it.tag == "iter" and isinstance(it.data[0], tuple) and it.data[0] and it.data[0][0] == "filter":
+                r_ = next_filtered(ip_, st, fr, t, it)
+                if r_ is not None:
+                    return r_
+                return typed_unknown(ip_, st, fr, t, args, t["callee"]["path"])
             if isinstance(it, Opaque) and it.tag == "iter":
                 return m_next(ip_, st, fr, t, args)
             return typed_unknown(ip_, st, fr, t, args, t["callee"]["path"])
         M["std::iter::Iterator::rev"] = m_rev
+        M["std::iter::Iterator::filter"] = m_filter
         ip.pattern_models.append((lambda p, f: p.endswith("as std::iter::Iterator>::next") or p == "std::iter::Iterator::next", m_next_any))
         M["nom::multi::count"] = m_nom_count
         M["nom::Parser::parse"] = m_nom_parse
@@ -398,7 +457,7 @@ class Loader:
         ip.typed_unknown = typed_unknown
         # models that decline (return None) fall back to the typed unknown
         for name, fn in list(M.items()):
-            if fn in (m_index, m_len, m_string_eq, m_unwrap_or_else, m_nom_parse):
+            if fn in (m_index, m_len, m_string_eq, m_unwrap_or_else, m_nom_parse, m_filter):
                 def wrap(ip_, st, fr, t, args, fn=fn, name=name):
                     r = fn(ip_, st, fr, t, args)
                     if r is None:
